@@ -41,23 +41,42 @@ static const size_t NPOS = size_t(-1);
 static std::string g_current;   // op line being executed (for death reports)
 
 struct Buf {
-    char* p = nullptr;     // exact-size block, no terminator (nullptr for `null`)
-    char* z = nullptr;     // same bytes + NUL terminator
-    size_t n = 0;
+    char* base = nullptr;  // owned exact-size block of the underlying buffer (nullptr if `null` or aliased)
+    char* p = nullptr;     // first byte of the view: inside `base`, or inside another Buf's block (aliased needle)
+    char* z = nullptr;     // the bytes of the view + NUL terminator (for the const char* overloads)
+    const char* pn = nullptr;  // pointer handed to the (const char*, pos, n) overloads: p when aliased, else z
+    size_t n = 0;          // length of the view
+    size_t basen = 0;      // length of the underlying buffer
     bool null = false;
-    std::string hex;
     Buf() {}
     Buf(const Buf&) = delete;
     Buf& operator=(const Buf&) = delete;
-    ~Buf() { delete[] p; delete[] z; }
-    void set(const std::string& bytes, bool is_null) {
-        delete[] p; delete[] z;
-        n = bytes.size(); null = is_null;
-        p = is_null ? nullptr : new char[n];
-        if (n) std::memcpy(p, bytes.data(), n);
-        z = new char[n + 1];
-        if (n) std::memcpy(z, bytes.data(), n);
-        z[n] = 0;
+    ~Buf() { delete[] base; delete[] z; }
+    void set_z(const char* src, size_t len) {
+        delete[] z;
+        z = new char[len + 1];
+        if (len) std::memcpy(z, src, len);
+        z[len] = 0;
+    }
+    // the view [off, off+len) of an own exact-size copy of `bytes`
+    void set(const std::string& bytes, bool is_null, size_t off = 0, size_t len = size_t(-1)) {
+        delete[] base;
+        basen = bytes.size(); null = is_null;
+        base = is_null ? nullptr : new char[basen];
+        if (basen) std::memcpy(base, bytes.data(), basen);
+        if (len == size_t(-1)) len = basen - off;
+        p = is_null ? nullptr : base + off;
+        n = len;
+        set_z(bytes.data() + off, len);
+        pn = z;
+    }
+    // the view [off, off+len) of another Buf's underlying buffer (aliasing)
+    void alias(const Buf& other, size_t off, size_t len) {
+        delete[] base; base = nullptr; basen = 0; null = false;
+        p = other.base + off;
+        n = len;
+        set_z(p, len);
+        pn = p;
     }
 };
 
@@ -67,18 +86,45 @@ static int hexval(char c) {
     if (c >= 'A' && c <= 'F') return c - 'A' + 10;
     return -1;
 }
-static bool parse_bytes(const std::string& tok, Buf& b) {
-    if (tok == "null") { b.set("", true); return true; }
-    if (tok == "-") { b.set("", false); return true; }
+static bool parse_hex(const std::string& tok, std::string& s) {
+    s.clear();
+    if (tok == "-") return true;
     if (tok.size() % 2) return false;
-    std::string s;
     for (size_t i = 0; i < tok.size(); i += 2) {
         int a = hexval(tok[i]), c = hexval(tok[i + 1]);
         if (a < 0 || c < 0) return false;
         s.push_back(static_cast<char>(a * 16 + c));
     }
-    b.set(s, false);
     return true;
+}
+static bool parse_offlen(const std::string& tok, size_t& off, size_t& len) {
+    size_t c = tok.find(':');
+    if (c == std::string::npos || c == 0 || c + 1 >= tok.size() || tok.size() > 40) return false;
+    for (size_t i = 0; i < tok.size(); ++i) if (i != c && (tok[i] < '0' || tok[i] > '9')) return false;
+    off = std::stoull(tok.substr(0, c)); len = std::stoull(tok.substr(c + 1));
+    return true;
+}
+// haystack token: `null` | `-` | <hex> | <hex>@<off>:<len> (a sub-view of the buffer <hex>)
+static bool parse_hay(const std::string& tok, Buf& b) {
+    if (tok == "null") { b.set("", true); return true; }
+    size_t at = tok.find('@');
+    std::string s;
+    if (!parse_hex(tok.substr(0, at), s)) return false;
+    if (at == std::string::npos) { b.set(s, false); return true; }
+    size_t off, len;
+    if (!parse_offlen(tok.substr(at + 1), off, len) || off > s.size() || len > s.size() - off) return false;
+    b.set(s, false, off, len);
+    return true;
+}
+// needle token: as above, or @<off>:<len> = the view [off, off+len) of the *haystack's buffer* (aliasing)
+static bool parse_needle(const std::string& tok, const Buf& hay, Buf& b) {
+    if (!tok.empty() && tok[0] == '@') {
+        size_t off, len;
+        if (hay.null || !parse_offlen(tok.substr(1), off, len) || off > hay.basen || len > hay.basen - off) return false;
+        b.alias(hay, off, len);
+        return true;
+    }
+    return parse_hay(tok, b);
 }
 static void put_hex(std::string& o, const char* d, size_t n) {
     static const char* X = "0123456789abcdef";
@@ -150,7 +196,7 @@ template <class SV> std::string op_cmp3(const Buf& H, const Buf& N) {
     for (size_t p1 : g) for (size_t n1 : counts(g, p1 > H.n)) cmp_entry(o, [&] { return h.compare(p1, n1, N.z); });
     o += " p=";
     for (size_t n2 = 0; n2 <= N.n; ++n2) {
-        for (size_t p1 : g) for (size_t n1 : counts(g, p1 > H.n)) cmp_entry(o, [&] { return h.compare(p1, n1, N.z, n2); });
+        for (size_t p1 : g) for (size_t n1 : counts(g, p1 > H.n)) cmp_entry(o, [&] { return h.compare(p1, n1, N.pn, n2); });
         o += ';';
     }
     return o;
@@ -190,7 +236,7 @@ template <class SV> std::string op_cmp5(const Buf& H, const Buf& N) {
         if (N.n) put_num(o, h.fn(N.z[0])); else o += '-';                                      \
         o += " p=";                                                                            \
         for (size_t n2 = 0; n2 <= N.n; ++n2) {                                                 \
-            for (size_t pos : g) { put_num(o, h.fn(N.z, pos, n2)); o += ','; }                 \
+            for (size_t pos : g) { put_num(o, h.fn(N.pn, pos, n2)); o += ','; }                \
             o += ';';                                                                          \
         }                                                                                      \
         return o;                                                                              \
@@ -366,6 +412,247 @@ static void on_terminate() {
     std::abort();
 }
 
+
+// ------------------------------------------------------------------ huge views
+// Views of lengths around 2^31 / 2^32 into one MAP_NORESERVE anonymous mapping (zero pages
+// that are never written, except for a few marker bytes whose positions and values are a
+// closed form both sides know).  Op lines:  <mode> h<op> <off>:<len> [<off>:<len> | <hex>] [numbers]
+// Every op has a *window contract* (W bytes): the answer must be decided by the bytes within
+// W of where the scan starts (or the scan must reach the end of the view within W), so that the
+// real code reads only a few bytes; lines outside the contract answer `bad-op` without being
+// executed.  The contract is evaluated by a third, windowed implementation reading the mapping.
+#include <sys/mman.h>
+static const size_t HUGE_SIZE = (size_t(1) << 32) + (size_t(1) << 31) + 4096;
+static const size_t HW = 64;
+static char* g_huge = nullptr;
+
+static bool huge_marked(size_t i) {
+    const size_t a = size_t(1) << 31, b = size_t(1) << 32;
+    return i < 16 || (i >= a - 16 && i < a + 16) || (i >= b - 16 && i < b + 16) || (i >= HUGE_SIZE - 16 && i < HUGE_SIZE);
+}
+static unsigned char huge_byte(size_t i) { return huge_marked(i) ? static_cast<unsigned char>((i * 37 + 11) % 255 + 1) : 0; }
+
+static bool huge_init() {
+    if (g_huge) return true;
+    void* m = mmap(nullptr, HUGE_SIZE, PROT_READ | PROT_WRITE, MAP_PRIVATE | MAP_ANONYMOUS | MAP_NORESERVE, -1, 0);
+    if (m == MAP_FAILED) return false;
+    g_huge = static_cast<char*>(m);
+    const size_t starts[4] = {0, (size_t(1) << 31) - 16, (size_t(1) << 32) - 16, HUGE_SIZE - 16};
+    const size_t lens[4] = {16, 32, 32, 16};
+    for (int k = 0; k < 4; ++k)
+        for (size_t i = starts[k]; i < starts[k] + lens[k]; ++i) g_huge[i] = static_cast<char>(huge_byte(i));
+    return true;
+}
+
+struct HV { size_t off, len; };
+static bool parse_hv(const std::string& tok, HV& v) {
+    return parse_offlen(tok, v.off, v.len) && v.off <= HUGE_SIZE && v.len <= HUGE_SIZE - v.off;
+}
+static bool parse_count(const std::string& tok, size_t& n) {
+    if (tok == "n") { n = NPOS; return true; }
+    if (tok.empty() || tok.size() > 19) return false;
+    for (char c : tok) if (c < '0' || c > '9') return false;
+    n = std::stoull(tok);
+    return true;
+}
+template <class SV> SV hview(const HV& v) { return SV(g_huge + v.off, v.len); }
+
+// windowed reference: sign of compare(v, w), or 2 = outside the contract
+static int ref_compare(const HV& v, const HV& w, bool expensive) {
+    size_t n = std::min(v.len, w.len);
+    // ASan's memcmp interceptor validates the whole common length even when the first bytes
+    // differ: common prefixes beyond 1 MiB only in the `expensive` ops (thorough tier)
+    if (n > (size_t(1) << 20) && !expensive) return 2;
+    for (size_t i = 0; i < n && i < HW; ++i) {
+        unsigned char a = static_cast<unsigned char>(g_huge[v.off + i]), b = static_cast<unsigned char>(g_huge[w.off + i]);
+        if (a != b) return a < b ? -1 : 1;
+    }
+    if (n > HW && v.off != w.off) return 2;
+    return v.len < w.len ? -1 : v.len > w.len ? 1 : 0;
+}
+static bool ref_substr(const HV& v, size_t pos, size_t n, HV& r) {
+    if (pos > v.len) return false;
+    r.off = v.off + pos; r.len = std::min(n, v.len - pos);
+    return true;
+}
+template <class SV> static std::string six_cmp(const SV& a, const SV& b) {
+    std::string o;
+    o += "c="; o += sgn(a.compare(b)); o += " vv="; SIX(a, b);
+    return o;
+}
+// 0 = found (x), 1 = npos, 2 = outside the contract
+static int ref_scan_fwd(const HV& v, size_t pos, const std::string& set, int kind, size_t& x) {
+    // kind 0: find(needle=set)   1: find_first_of   2: find_first_not_of
+    size_t L = v.len, k = set.size();
+    if (kind == 0) {
+        if (pos > L) return 1;
+        if (k == 0) { x = pos; return 0; }
+        if (L < k) return 1;
+        size_t last = L - k;
+        for (size_t i = pos; i <= last && i <= pos + HW; ++i)
+            if (std::memcmp(g_huge + v.off + i, set.data(), k) == 0) { x = i; return 0; }
+        return (pos > last || pos + HW >= last) ? 1 : 2;
+    }
+    if (pos >= L) return 1;
+    if (kind == 1 && k == 0) return 1;
+    for (size_t i = pos; i < L && i <= pos + HW; ++i) {
+        bool in = set.find(g_huge[v.off + i]) != std::string::npos;
+        if (in == (kind == 1)) { x = i; return 0; }
+    }
+    return (pos + HW >= L - 1) ? 1 : 2;
+}
+static int ref_scan_bwd(const HV& v, size_t pos, const std::string& set, int kind, size_t& x) {
+    // kind 0: rfind   1: find_last_of   2: find_last_not_of
+    size_t L = v.len, k = set.size();
+    size_t start;
+    if (kind == 0) {
+        if (L < k) return 1;
+        start = std::min(pos, L - k);
+        if (k == 0) { x = start; return 0; }
+    } else {
+        if (L == 0) return 1;
+        if (kind == 1 && k == 0) return 1;
+        start = std::min(pos, L - 1);
+    }
+    for (size_t d = 0; d <= HW && d <= start; ++d) {
+        size_t i = start - d;
+        bool hit;
+        if (kind == 0) hit = std::memcmp(g_huge + v.off + i, set.data(), k) == 0;
+        else hit = (set.find(g_huge[v.off + i]) != std::string::npos) == (kind == 1);
+        if (hit) { x = i; return 0; }
+    }
+    return start <= HW ? 1 : 2;
+}
+
+template <class SV> static bool huge_exec(const std::vector<std::string>& t, std::string& o) {
+    const std::string& op = t[1];
+    HV v, w;
+    if (t.size() < 3 || !parse_hv(t[2], v)) return false;
+    SV a = hview<SV>(v);
+    if ((op == "hcmp" || op == "hcmpx") && t.size() == 4) {
+        if (!parse_hv(t[3], w)) return false;
+        if (ref_compare(v, w, op == "hcmpx") == 2) return false;
+        o = six_cmp(a, hview<SV>(w));
+        return true;
+    }
+    if (op == "hcmp3" && t.size() == 6) {
+        size_t p1, n1;
+        if (!parse_count(t[3], p1) || !parse_count(t[4], n1) || !parse_hv(t[5], w)) return false;
+        HV r;
+        if (ref_substr(v, p1, n1, r) && ref_compare(r, w, false) == 2) return false;
+        o = "c=";
+        cmp_entry(o, [&] { return a.compare(p1, n1, hview<SV>(w)); });
+        return true;
+    }
+    if (op == "hcmp5" && t.size() == 8) {
+        size_t p1, n1, p2, n2;
+        if (!parse_count(t[3], p1) || !parse_count(t[4], n1) || !parse_hv(t[5], w) || !parse_count(t[6], p2) ||
+            !parse_count(t[7], n2)) return false;
+        HV r1, r2;
+        if (ref_substr(v, p1, n1, r1) && ref_substr(w, p2, n2, r2) && ref_compare(r1, r2, false) == 2) return false;
+        o = "c=";
+        cmp_entry(o, [&] { return a.compare(p1, n1, hview<SV>(w), p2, n2); });
+        return true;
+    }
+    if (op == "hsub" && t.size() == 5) {
+        size_t pos, n;
+        if (!parse_count(t[3], pos) || !parse_count(t[4], n)) return false;
+        try {
+            SV r = a.substr(pos, n);
+            put_num(o, static_cast<size_t>(r.data() - a.data())); o += ':'; put_num(o, r.size()); o += ':';
+            put_hex(o, r.data(), std::min<size_t>(r.size(), 4));
+        }
+        catch (const std::out_of_range&) { o = "X"; }
+        return true;
+    }
+    if (op == "hrm" && t.size() == 4) {
+        size_t n;
+        if (!parse_count(t[3], n) || n > v.len) return false;
+        SV r = a; r.remove_prefix(n);
+        put_num(o, static_cast<size_t>(r.data() - a.data())); o += ':'; put_num(o, r.size());
+        SV q = a; q.remove_suffix(n);
+        o += ' '; put_num(o, static_cast<size_t>(q.data() - a.data())); o += ':'; put_num(o, q.size());
+        return true;
+    }
+    if (op == "hat" && t.size() == 4) {
+        size_t pos;
+        if (!parse_count(t[3], pos)) return false;
+        o = "at=";
+        try { char c = a.at(pos); put_hex(o, &c, 1); } catch (const std::out_of_range&) { o += 'X'; }
+        o += " ix=";
+        if (pos < v.len) { char c = a[pos]; put_hex(o, &c, 1); } else o += 'u';
+        o += " fb=";
+        if (v.len) { char c = a.front(); put_hex(o, &c, 1); c = a.back(); put_hex(o, &c, 1); } else o += 'u';
+        o += " sz="; put_num(o, a.size()); o += ','; put_num(o, a.length()); o += ','; o += a.empty() ? '1' : '0';
+        return true;
+    }
+    if (op == "hcopy" && t.size() == 5) {
+        size_t n, pos;
+        if (!parse_count(t[3], n) || !parse_count(t[4], pos) || n > 32) return false;
+        size_t room = pos <= v.len ? std::min(n, v.len - pos) : 0;
+        char* dst = new char[room];
+        std::memset(dst, '?', room);
+        try { size_t r = a.copy(dst, n, pos); put_num(o, r); o += ':'; put_hex(o, dst, room); }
+        catch (const std::out_of_range&) { o = "X"; }
+        delete[] dst;
+        return true;
+    }
+    if (op == "hsw" && t.size() == 4) {
+        if (!parse_hv(t[3], w)) return false;
+        // starts_with / ends_with compare |w| bytes: decided within the window, or trivially by the lengths
+        if (w.len <= v.len) {
+            HV head = {v.off, w.len}, tail = {v.off + (v.len - w.len), w.len};
+            if (ref_compare(head, w, false) == 2 || ref_compare(tail, w, false) == 2) return false;
+        }
+        SV b = hview<SV>(w);
+        o = "sw="; o += a.starts_with(b) ? '1' : '0'; o += " ew="; o += a.ends_with(b) ? '1' : '0';
+        return true;
+    }
+    int kind = -1; bool fwd = true;
+    if (op == "hfind") kind = 0; else if (op == "hffo") kind = 1; else if (op == "hffno") kind = 2;
+    else if (op == "hrfind") { kind = 0; fwd = false; } else if (op == "hflo") { kind = 1; fwd = false; }
+    else if (op == "hflno") { kind = 2; fwd = false; }
+    if (kind >= 0 && t.size() == 5) {
+        std::string set; size_t pos, x = 0;
+        if (!parse_hex(t[3], set) || set.size() > 16 || !parse_count(t[4], pos)) return false;
+        int rc = fwd ? ref_scan_fwd(v, pos, set, kind, x) : ref_scan_bwd(v, pos, set, kind, x);
+        if (rc == 2) return false;
+        Buf N; N.set(set, false);
+        SV n = mk<SV>(N);
+        size_t r;
+        if (op == "hfind") r = a.find(n, pos); else if (op == "hffo") r = a.find_first_of(n, pos);
+        else if (op == "hffno") r = a.find_first_not_of(n, pos); else if (op == "hrfind") r = a.rfind(n, pos);
+        else if (op == "hflo") r = a.find_last_of(n, pos); else r = a.find_last_not_of(n, pos);
+        put_num(o, r);
+        return true;
+    }
+    return false;
+}
+
+// answers the line (returns false if the token list is not a huge-view op at all)
+static bool huge_op(const std::vector<std::string>& t, const std::string& line) {
+    static const char* names[] = {"hcmp", "hcmpx", "hcmp3", "hcmp5", "hsub", "hrm", "hat", "hcopy", "hsw", "hfind",
+                                  "hffo", "hffno", "hrfind", "hflo", "hflno"};
+    bool known = false;
+    for (const char* n : names) if (t[1] == n) known = true;
+    if (!known) return false;
+    if (!huge_init()) { vh::answer("bad-op"); return true; }   // no address space: nothing is claimed
+    g_current = line;
+    std::string a, b;
+    bool ok;
+    if (t[0] == "s") ok = huge_exec<std::string_view>(t, a);
+    else {
+        ok = huge_exec<tlx::StringView>(t, a);
+        if (ok) {
+            huge_exec<std::string_view>(t, b);
+            if (a != b) vh::viol(t[1] + " " + first_diff(a, b) + " on huge views: " + line);
+        }
+    }
+    g_current.clear();
+    vh::answer(ok ? a : "bad-op");
+    return true;
+}
+
 // an operation that no longer terminates must not hang the check: 2 s of CPU time per line
 static void on_vtalarm(int) {
     static const char m[] = "#VIOL hang: an operation used more than 2 s of CPU time\n";
@@ -392,7 +679,9 @@ static int run() {
         if (t[0][0] == '#') { vh::answer(line); continue; }
         if (t.size() < 3 || (t[0] != "t" && t[0] != "s")) { vh::answer("bad-op"); continue; }
         bool haveN = t.size() >= 4;
-        if (!parse_bytes(t[2], H) || (haveN && !parse_bytes(t[3], N))) { vh::answer("bad-op"); continue; }
+        if (t.size() > 1 && t[1] == "hcmpx") arm(120);   // scans gigabytes of zero pages on purpose
+        if (t[1].size() > 1 && t[1][0] == 'h' && huge_op(t, line)) continue;
+        if (!parse_hay(t[2], H) || (haveN && !parse_needle(t[3], H, N))) { vh::answer("bad-op"); continue; }
         if (!haveN) N.set("", false);
         g_current = line;
         std::string a, b;
@@ -469,6 +758,49 @@ static int exh(size_t maxH, size_t maxN, int asize) {
     return 0;
 }
 
+// all buffers up to a length bound, haystack = every sub-view, needle = every sub-view of the
+// same buffer (needle inside / overlapping / before / behind the haystack, same pointer with a
+// different length, self)
+static int exh_alias(size_t maxB, int asize) {
+    std::vector<unsigned char> alpha = {0x00, 'a', 'b', 0x80, 0xFF};
+    if (asize == 3) alpha = {0x00, 'a', 0x80};
+    if (asize == 2) alpha = {'a', 'b'};
+    std::vector<std::string> bs;
+    enumerate(alpha, maxB, bs);
+    std::map<std::string, int> classes;
+    unsigned long long evals = 0, mism = 0;
+    Buf H, N;
+    for (const std::string& buf : bs) {
+        std::string bt = tok_of(buf);
+        for (size_t o1 = 0; o1 <= buf.size(); ++o1) for (size_t l1 = 0; o1 + l1 <= buf.size(); ++l1) {
+            H.set(buf, false, o1, l1);
+            std::string ht = bt + "@" + std::to_string(o1) + ":" + std::to_string(l1);
+            std::cout << "#AT " << ht << " -" << '\n' << std::flush;
+            for (size_t o2 = 0; o2 <= buf.size(); ++o2) for (size_t l2 = 0; o2 + l2 <= buf.size(); ++l2) {
+                N.alias(H, o2, l2);
+                std::string nt = "@" + std::to_string(o2) + ":" + std::to_string(l2);
+                for (const char* op : OPS2) {
+                    std::string line = std::string("t ") + op + " " + ht + " " + nt;
+                    g_current = line;
+                    std::string a, b;
+                    dispatch<tlx::StringView>(op, H, N, true, a);
+                    dispatch<std::string_view>(op, H, N, true, b);
+                    g_current.clear();
+                    ++evals;
+                    if (a != b) {
+                        ++mism;
+                        std::string d = first_diff(a, b);
+                        std::string cls = std::string(op) + " " + d.substr(0, d.find(' '));
+                        if (classes[cls]++ < 2) std::cout << line << '\n' << std::flush;
+                    }
+                }
+            }
+        }
+    }
+    std::cout << "#EXH evaluated=" << evals << " mismatches=" << mism << " classes=" << classes.size() << '\n' << std::flush;
+    return 0;
+}
+
 int main(int argc, char** argv) {
     std::ios::sync_with_stdio(false);
     __sanitizer_set_death_callback(death);
@@ -476,6 +808,8 @@ int main(int argc, char** argv) {
     std::string mode = argc > 1 ? argv[1] : "run";
     if (mode == "run") return run();
     if (mode == "exh" && argc >= 4) return exh(std::stoul(argv[2]), std::stoul(argv[3]), argc > 4 ? std::atoi(argv[4]) : 5);
-    std::cerr << "usage: c18 run | exh <maxhay> <maxneedle> [3|5]\n";
+    if (mode == "exha" && argc >= 3) return exh_alias(std::stoul(argv[2]), argc > 3 ? std::atoi(argv[3]) : 5);
+    if (mode == "hprobe") { std::cout << (huge_init() ? "huge-ok" : "huge-unavailable") << '\n'; return 0; }
+    std::cerr << "usage: c18 run | exh <maxhay> <maxneedle> [3|5] | exha <maxbuf> [2|3|5] | hprobe\n";
     return 2;
 }
